@@ -322,6 +322,28 @@ pub fn handle_with(mut rq: Request, act: &Action, peer_expect: &str, partial: Op
             let _ = w.flush();
             drop(w);
         }
+        "E" => {
+            // respond with a body of undeclared length whose reader FAILS after having delivered the given bytes: what was
+            // sent stays one (chunk-terminated) response; nothing may be appended to it
+            struct Failing {
+                d: Vec<u8>,
+                pos: usize,
+            }
+            impl Read for Failing {
+                fn read(&mut self, buf: &mut [u8]) -> std::io::Result<usize> {
+                    if self.pos >= self.d.len() {
+                        return Err(std::io::Error::new(std::io::ErrorKind::Other, "the application's body source failed"));
+                    }
+                    let n = buf.len().min(self.d.len() - self.pos);
+                    buf[..n].copy_from_slice(&self.d[self.pos..self.pos + n]);
+                    self.pos += n;
+                    Ok(n)
+                }
+            }
+            let data = unhex(rest);
+            let resp = Response::new(StatusCode(200), vec![], Failing { d: data, pos: 0 }, None, None);
+            let _ = rq.respond(resp);
+        }
         "V" => {
             // raw writer: gathered writes (head and body as two slices) until everything is written, flush, drop
             let data = unhex(rest);
@@ -502,8 +524,13 @@ pub fn run_case(servers: &mut Servers, f: &[&str]) -> String {
     rconn.set_read_timeout(Some(Duration::from_millis(20)));
     let stop = Arc::new(AtomicBool::new(false));
     let stop2 = stop.clone();
+    // rdelay=<ms>: the client starts reading only after that long (a slow reader: the server's writes fill the socket buffers)
+    let rdelay: u64 = field(f, "rdelay=").map(|s| s.parse().unwrap()).unwrap_or(0);
     let rt = std::thread::spawn(move || {
         let mut buf = vec![0u8; 65536];
+        if rdelay > 0 {
+            std::thread::sleep(Duration::from_millis(rdelay));
+        }
         loop {
             match rconn.read(&mut buf) {
                 Ok(0) => {
@@ -547,8 +574,13 @@ pub fn run_case(servers: &mut Servers, f: &[&str]) -> String {
     let mut end = "hang";
     let mut watchdog_fired = false;
     let mut blocked_handlers: Vec<std::thread::JoinHandle<()>> = Vec::new();
+    let mut recv_errors = 0usize;
     loop {
         let r = servers.server(kind).recv_timeout(Duration::from_millis(5));
+        if r.is_err() {
+            // what one client does to its connection must never surface as an error of the application's receive call
+            recv_errors += 1;
+        }
         if let Ok(Some(rq)) = r {
             let act = if idx < script.len() { &script[idx] } else { script.last().unwrap() };
             idx += 1;
@@ -656,6 +688,7 @@ pub fn run_case(servers: &mut Servers, f: &[&str]) -> String {
     } else {
         String::new()
     };
+    let extra = if recv_errors > 0 { format!("{} recverr={}", extra, recv_errors) } else { extra };
     format!("n={} {}wire={} end={} stray={}{}", reqs.len(), reqs.iter().map(|r| format!("{} ", r)).collect::<String>(), hex(&w), end, stray, extra)
 }
 
@@ -697,8 +730,14 @@ fn run_vanish(_shared: &mut Servers, kind: &str, stream: &[u8], script: &[Action
     let mut reqs: Vec<String> = Vec::new();
     let mut idx = 0;
     let quiet = if fin == "unread" { 400 } else { 120 };
+    let mut recv_errors = 0usize;
     while start.elapsed() < Duration::from_millis(3000) && last.elapsed() < Duration::from_millis(quiet) {
-        if let Ok(Some(rq)) = servers.server(kind).recv_timeout(Duration::from_millis(5)) {
+        let r = servers.server(kind).recv_timeout(Duration::from_millis(5));
+        if r.is_err() {
+            recv_errors += 1;
+            last = Instant::now();
+        }
+        if let Ok(Some(rq)) = r {
             let act = if idx < script.len() { &script[idx] } else { script.last().unwrap() };
             idx += 1;
             let r = std::panic::catch_unwind(std::panic::AssertUnwindSafe(|| handle(rq, act, &peer).text));
@@ -724,5 +763,6 @@ fn run_vanish(_shared: &mut Servers, kind: &str, stream: &[u8], script: &[Action
     } else {
         String::new()
     };
+    let extra = if recv_errors > 0 { format!("{} recverr={}", extra, recv_errors) } else { extra };
     format!("n={} {}wire=- end=closed stray=0{}", reqs.len(), reqs.iter().map(|r| format!("{} ", r)).collect::<String>(), extra)
 }
